@@ -10,7 +10,7 @@ CONSTANTS
   Starts = {}
   Hows = {"default", "spawn"}
   POps = {"thread", "stopset", "launch"}
-  COps = {"stopset"}
+  COps = {}
   NW = 2
   MaxDepth = 4
   BUG_INHERIT = TRUE
@@ -30,6 +30,7 @@ PROPERTY StopSticky
 PROPERTY DoneIsFinal
 PROPERTY RaiseStops
 PROPERTY FlagPerProcess
+PROPERTY PbpOneThread
 ACTION_CONSTRAINT EmitTransition
 VIEW View
 CHECK_DEADLOCK FALSE
